@@ -26,6 +26,11 @@ TEXT = {
         "note": "Trusted: Lean kernel, go/ast extractor (output is readable Lean literals), correspondence harness, esbuild's parser as AST provider for the scanner.",
         "technique": "Lean 4 proof over regenerated facts + differential correspondence; AST feature-scanner search",
     },
+    "C02": {
+        "level": "Lean theorem for all byte strings that the percent-escaped data URL emitted for an imported file decodes (WHATWG percent-decode) to exactly the file's bytes and contains no byte the URL parser strips, tied to helpers.EncodeStringAsPercentEscapedDataURL by correspondence. Module-graph semantics (order, live bindings, interop shapes, errors, entry exports) are checked by loading generated graphs natively in Node and as esm/cjs/iife bundles: a search, not a proof.",
+        "note": "Trusted: Lean kernel, correspondence harness, Node 20 as native reference. One recorded known finding (evaluation order with --tree-shaking=false).",
+        "technique": "Lean 4 proof on hand-written model + differential correspondence; native-vs-bundle Node differential search",
+    },
 }
 
 _pending = "check not built yet in this session (work in progress; the Lean-proof technique does apply — see DESIGN.md §4)"
